@@ -47,6 +47,9 @@ type Script struct {
 	DeadlineMs int    `json:"deadlineMs"` // its deadline
 	CloseAtMs  int    `json:"closeAtMs"`  // Close is called from another goroutine so long after the operation began (-1 = never)
 	LateMs     int    `json:"lateMs"`     // peer "late": the ACK comes after so long
+	// shared-key handshake: "" (none) | right | wrongkey (the peer holds another key) | reject (the peer refuses the login) |
+	// mute (the peer accepts the connection and never sends HELO)
+	Secret string `json:"secret"`
 }
 
 func chunkBytes(id string, size int) []byte {
@@ -193,7 +196,7 @@ func runScript(sc Script) *vtrace.Tracer {
 	tr.Emit("Case", "script", sc.ID, "peer", sc.Peer, "k", sc.K, "op", sc.Op, "sendSize", sc.SendSize, "deadlineMs", sc.DeadlineMs, "closeAtMs", sc.CloseAtMs, "lateMs", sc.LateMs, "tls", sc.TLS)
 	var ln net.Listener
 	var err error
-	if sc.TLS {
+	if sc.TLS && sc.Secret != "tlsmute" {
 		ln, err = tls.Listen("tcp", "127.0.0.1:0", &tls.Config{Certificates: []tls.Certificate{cert}})
 	} else {
 		ln, err = net.Listen("tcp", "127.0.0.1:0")
@@ -219,14 +222,40 @@ func runScript(sc Script) *vtrace.Tracer {
 				return
 			}
 		}
+		switch sc.Secret {
+		case "":
+		case "mute", "tlsmute": // (tlsmute: a plain TCP peer that never speaks, under a client that expects TLS)
+			<-done
+			c.Close()
+			return
+		default:
+			key := "the-key"
+			if sc.Secret == "wrongkey" {
+				key = "another-key"
+			}
+			okHs, herr := forwardprotocol.DoServerHandshake(c, key, 2*time.Second, func(_, _, _ string) (bool, string) {
+				return sc.Secret != "reject", "scripted"
+			})
+			if herr != nil || !okHs {
+				time.Sleep(20 * time.Millisecond)
+				c.Close()
+				return
+			}
+			_ = c.SetDeadline(time.Time{})
+		}
 		peer(c, sc, tr, done)
 	}()
-	conn, err := fluentdforward.OpenConnectionForVerif(logger.Root(), fluentdforward.UpstreamConfig{Address: ln.Addr().String(), TLS: sc.TLS})
+	secret := ""
+	if sc.Secret != "" && sc.Secret != "tlsmute" {
+		secret = "the-key"
+	}
+	tOpen := time.Now()
+	conn, err := fluentdforward.OpenConnectionForVerif(logger.Root(), fluentdforward.UpstreamConfig{Address: ln.Addr().String(), TLS: sc.TLS, Secret: secret})
+	tr.Emit("OpenRet", "ok", err == nil, "ms", time.Since(tOpen).Milliseconds(), "secret", sc.Secret, "hsTimeoutMs", defs.ForwarderHandshakeTimeout.Milliseconds(), "connTimeoutMs", defs.ForwarderConnectionTimeout.Milliseconds(), "err", errText(err))
 	if err != nil {
-		tr.Emit("HarnessError", "what", "open: "+err.Error())
+		tr.Emit("End")
 		return tr
 	}
-	tr.Emit("Opened")
 	send := func(id string, size int) func(time.Time) result {
 		data := chunkBytes(id, size)
 		return func(d time.Time) result {
@@ -275,7 +304,8 @@ func Main(args []string) int {
 	out := fs.String("out", "", "ndjson trace")
 	_ = fs.Parse(args)
 	logger.SetLogLevel(logger.FatalLevel)
-	defs.ForwarderConnectionTimeout = time.Second
+	defs.ForwarderConnectionTimeout = 400 * time.Millisecond
+	defs.ForwarderHandshakeTimeout = 300 * time.Millisecond
 	f, err := os.Open(*scripts)
 	if err != nil {
 		fmt.Fprintln(os.Stderr, err)
